@@ -17,6 +17,7 @@ pub fn spec() -> PropSpec {
         assumptions: &["reference CRC-24 (generator 0x1FFF409); DF11 accepted iff upper 17 remainder bits are 0"],
         workers: 16,
         also_nochk: false,
+        fuzz_target: None,
         quick_budget_s: 900,
         thorough_budget_s: 3600,
         min_nontrivial_quick: 100_000,
